@@ -14,11 +14,17 @@ acts:  nR<c>.<s>  new DoWithShard call on shard s of collection c      (thread i
        nD<c>      new DeleteCollectionShards call on collection c       cleanup goroutines get the next
        r<t>       next step of thread t                                  free id when spawned)
        f<t>       idle timer of cleanup goroutine t fires
+       xB<c>.<s>  environment: the database file of shard s of collection c becomes garbage (the
+                  directory is created if need be); only while no handle is open on it
+       xF<c>.<s>  environment: a regular file is put at the path of the (not existing) shard directory
+       xR<c>.<s>  environment: the garbage database file is removed again (the failure was transient)
 
 trace: one token per act  `<act>=<status of the acting thread>/<dir observations>` and a final
        `end=<status of every thread>/<dir observations>/dl=<0|1>`; a status is `at_<yield point>`,
-       `blocked_<rlock|wlock|select|store>`, `ret_<ok|err|exit>`; an act that is not enabled in the
-       model yields `<act>=DISABLED` and ends the trace.
+       `blocked_<rlock|wlock|select|store>`, `ret_<ok|err|exit>`, `env` for an environment act; an act
+       that is not enabled in the model yields `<act>=DISABLED` and ends the trace.  A dir observation is
+       `<c>.<s>:` + E (directory exists) O (database file locked = handle open) S (in the store) N (shard
+       reference nil) B (database file is garbage) F (a non-directory sits at the path), `-` when not.
 -/
 import SemaModel.Base.DriverUtil
 import SemaModel.C12.Model
@@ -44,6 +50,9 @@ def parseAct (tok : String) : Option Act :=
   else if tok.startsWith "nD" then ((tok.drop 2).toString.toNat?).map Act.newDel
   else if tok.startsWith "r" then ((tok.drop 1).toString.toNat?).map Act.run
   else if tok.startsWith "f" then ((tok.drop 1).toString.toNat?).map Act.fire
+  else if tok.startsWith "xB" then (parseDir (tok.drop 2).toString).map Act.corrupt
+  else if tok.startsWith "xF" then (parseDir (tok.drop 2).toString).map Act.block
+  else if tok.startsWith "xR" then (parseDir (tok.drop 2).toString).map Act.repair
   else none
 
 def actStr : Act → String
@@ -51,6 +60,9 @@ def actStr : Act → String
   | .newDel c => s!"nD{c}"
   | .run t => s!"r{t}"
   | .fire t => s!"f{t}"
+  | .corrupt d => s!"xB{dirStr d}"
+  | .block d => s!"xF{dirStr d}"
+  | .repair d => s!"xR{dirStr d}"
 
 def parseVariant (s : String) : Option Variant :=
   if s == "pinned" then some .pinned else if s == "repaired" then some .repaired else none
@@ -73,18 +85,28 @@ def dirObs (s : St) (d : Dir) : String :=
         | some ob => if ob.sh == Sh.nil then "N" else "-"
         | none => "?")
     | none => ("-", "-")
-  s!"{dirStr d}:{e}{o}{st}{n}"
+  let b := if s.bad d then "B" else "-"
+  let f := if s.blocked d then "F" else "-"
+  s!"{dirStr d}:{e}{o}{st}{n}{b}{f}"
 
 def obsAll (s : St) (ds : List Dir) : String := ",".intercalate (ds.map (dirObs s))
 
 def insertSorted (d : Dir) (l : List Dir) : List Dir := if d ∈ l then l else insDir d l
 
 def dirUniverse (acts : List Act) : List Dir :=
-  acts.foldl (fun acc a => match a with | .newReq d => insertSorted d acc | _ => acc) []
+  acts.foldl (fun acc a => match a with
+    | .newReq d | .corrupt d | .block d | .repair d => insertSorted d acc
+    | _ => acc) []
 
-def actingThread (s : St) : Act → Tid
-  | .newReq _ | .newDel _ => s.thr.length
-  | .run t | .fire t => t
+def actingThread (s : St) : Act → Option Tid
+  | .newReq _ | .newDel _ => some s.thr.length
+  | .run t | .fire t => some t
+  | .corrupt _ | .block _ | .repair _ => none
+
+def actStatus (s s' : St) (a : Act) : String :=
+  match actingThread s a with
+  | some t => status s' t
+  | none => "env"
 
 def traceLine (v : Variant) (acts : List Act) : String :=
   let ds := dirUniverse acts
@@ -94,7 +116,7 @@ def traceLine (v : Variant) (acts : List Act) : String :=
     | a :: rest =>
       match step v s a with
       | none => (s, s!"{actStr a}=DISABLED" :: acc, false)
-      | some s' => go s' rest (s!"{actStr a}={status s' (actingThread s a)}/{obsAll s' ds}" :: acc)
+      | some s' => go s' rest (s!"{actStr a}={actStatus s s' a}/{obsAll s' ds}" :: acc)
   let (s, acc, ok) := go (St.init []) acts []
   if ok then
     let sts := ",".intercalate ((List.range s.thr.length).map (status s))
@@ -256,7 +278,11 @@ def configs : List (String × List Act) :=
   [ ("2req-same-shard+del", [.newReq (0,0), .newReq (0,0), .newDel 0]),
     ("2req-two-shards+del", [.newReq (0,0), .newReq (0,1), .newDel 0]),
     ("2req-two-collections+del", [.newReq (0,0), .newReq (1,0), .newDel 0]),
-    ("req+del+del", [.newReq (0,0), .newDel 0, .newDel 0]) ]
+    ("req+del+del", [.newReq (0,0), .newDel 0, .newDel 0]),
+    -- loads that fail: the database file of a shard is garbage / a non-directory sits at its path
+    ("badfile+2req-same-shard+del", [.corrupt (0,0), .newReq (0,0), .newReq (0,0), .newDel 0]),
+    ("badfile+req-bad+req-good+del", [.corrupt (0,0), .newReq (0,0), .newReq (0,1), .newDel 0]),
+    ("blocked+req-blocked+req-good+del", [.block (0,0), .newReq (0,0), .newReq (0,1), .newDel 0]) ]
 
 def initOf (v : Variant) (calls : List Act) : St :=
   (runSched v (St.init []) calls).1
@@ -318,8 +344,31 @@ def staleCleanupActs : List Act :=
   [.newDel 0] ++ List.replicate 10 (.run 2) ++ [.newReq (0,0)] ++ List.replicate 7 (.run 3) ++ List.replicate 3 (.run 1) ++
   [.newReq (0,0)] ++ List.replicate 4 (.run 5)
 
+/-- a request on a shard whose database file is garbage returns its error; only THEN do a request on
+another shard of the collection, a deletion of the collection and a request on the (now repaired)
+first shard arrive: every one of them needs `shardLock` -/
+def openFailActs : List Act :=
+  [.corrupt (0,0), .newReq (0,0)] ++ List.replicate 5 (.run 0) ++ [.newReq (0,1)] ++ List.replicate 11 (.run 1) ++
+  [.newDel 0] ++ List.replicate 4 (.run 3)
+
+/-- the same with a non-directory at the shard path (`MkdirAll` fails), and a second failing request -/
+def mkdirFailActs : List Act :=
+  [.block (1,0), .newReq (1,0)] ++ List.replicate 4 (.run 0) ++ [.newReq (1,1), .newReq (1,0)] ++ List.replicate 3 (.run 1)
+
+/-- a shard is loaded and unloaded by its idle timer; then its file is overwritten with garbage; the
+next request fails cleanly, a deletion removes the garbage, the request after it loads again -/
+def corruptAfterUnloadActs : List Act :=
+  [.newReq (0,0)] ++ List.replicate 11 (.run 0) ++ [.run 1, .fire 1] ++ List.replicate 10 (.run 1) ++
+  [.corrupt (0,0), .newReq (0,0)] ++ List.replicate 5 (.run 2) ++ [.newDel 0] ++ List.replicate 6 (.run 3) ++ [.newReq (0,0)]
+
+/-- a transient failure: two requests on a shard whose database file is garbage fail; the file is
+repaired (a torn transfer completed); the next request on the same shard must load it -/
+def transientFailActs : List Act :=
+  [.corrupt (0,0), .newReq (0,0)] ++ List.replicate 5 (.run 0) ++ [.newReq (0,0)] ++ List.replicate 5 (.run 1) ++
+  [.repair (0,0), .newReq (0,0)] ++ List.replicate 11 (.run 2) ++ [.newReq (0,0)] ++ List.replicate 8 (.run 4)
+
 def fixedScheds (v : Variant) : List (List Act) :=
-  [witnessActs, staleCleanupActs].map fun pre =>
+  [witnessActs, staleCleanupActs, openFailActs, mkdirFailActs, corruptAfterUnloadActs, transientFailActs].map fun pre =>
     -- the prefix as far as it is enabled in the model of this variant, completed to a terminal state
     let (s, n) := runSched v (St.init []) pre
     let pre := pre.take n
@@ -344,10 +393,10 @@ def genMain (out : IO.FS.Stream) (v : Variant) (tier : String) (seed : Nat) : IO
         k := k + 1
       out.putStrLn s!"# cover {name}: states={ex.nodes.size} transitions={ex.edges} cover_schedules={sc.size} emitted={n}"
       ci := ci + 1
-    for acts in randomScheds v 300 (UInt64.ofNat seed) do
+    for acts in randomScheds v 315 (UInt64.ofNat seed) do
       out.putStrLn (schedLine v acts)
   else
-    for acts in randomScheds v 200 (UInt64.ofNat seed) do
+    for acts in randomScheds v 210 (UInt64.ofNat seed) do
       out.putStrLn (schedLine v acts)
 
 def statsMain (out : IO.FS.Stream) (v : Variant) : IO Unit := do
